@@ -104,7 +104,9 @@ func (d *plainDest) Write(p []byte) (int, error) {
 
 var lineBodies = []string{"a", "", "\x00b\xff", `{"k":1}`, strings.Repeat("z", 40), "line five"}
 
-func lineOf(inst, i int) string { return fmt.Sprintf("%s#%d.%d\n", lineBodies[i%len(lineBodies)], inst, i) }
+func lineOf(inst, i int) string {
+	return fmt.Sprintf("%s#%d.%d\n", lineBodies[i%len(lineBodies)], inst, i)
+}
 
 type op struct {
 	kind string // w | trigger | close
@@ -162,70 +164,82 @@ func main() {
 	ops = append(ops, op{"trigger", 0}, op{"close", 0})
 	pairs := []zerolog.Level{-1, 0, 1, 3, 127}
 	r.Deadline = time.Now().Add(12 * time.Minute)
-	for _, cl := range pairs {
-		for _, tl := range pairs {
-			for _, plain := range []bool{false, true} {
-				if plain && tier == "quick" && !(cl == 0 && tl == 3 || cl == 3 && tl == 1) {
-					continue
-				}
-				idx := make([]int, L)
-				for {
-					hist := make([]op, L)
-					for i := range hist {
-						hist[i] = ops[idx[i]]
+	seq.Sharded(r, drv.Workers(), func(r *seq.Run, shard, nshards int) {
+		var hidx int64
+		for _, cl := range pairs {
+			for _, tl := range pairs {
+				for _, plain := range []bool{false, true} {
+					if plain && tier == "quick" && !(cl == 0 && tl == 3 || cl == 3 && tl == 1) {
+						continue
 					}
-					runHistory(r, cl, tl, plain, hist)
-					k := L - 1
-					for k >= 0 {
-						idx[k]++
-						if idx[k] < len(ops) {
+					idx := make([]int, L)
+					for {
+						hist := make([]op, L)
+						for i := range hist {
+							hist[i] = ops[idx[i]]
+						}
+						hidx++
+						if hidx%int64(nshards) == int64(shard) {
+							runHistory(r, cl, tl, plain, hist)
+						}
+						k := L - 1
+						for k >= 0 {
+							idx[k]++
+							if idx[k] < len(ops) {
+								break
+							}
+							idx[k] = 0
+							k--
+						}
+						if k < 0 {
 							break
 						}
-						idx[k] = 0
-						k--
 					}
-					if k < 0 {
-						break
-					}
-				}
-				if r.TimeUp() {
-					break
-				}
-			}
-		}
-	}
-	r.Count("sequential_histories", r.Evals)
-	// destination failures: the statement does not say what a failing destination does to the held lines,
-	// but "no line is duplicated or altered" and "held lines in their original order" hold for every history: with
-	// one failing destination call, every received line is one that was written, at most once, held ones in order
-	{
-		L2 := 5
-		before := r.Evals
-		for _, pair := range [][2]zerolog.Level{{0, 3}, {3, 1}, {1, 1}} {
-			for failAt := 1; failAt <= 3; failAt++ {
-				idx := make([]int, L2)
-				for {
-					hist := make([]op, L2)
-					for i := range hist {
-						hist[i] = ops[idx[i]]
-					}
-					runFaultHistory(r, pair[0], pair[1], failAt, hist)
-					k := L2 - 1
-					for k >= 0 {
-						idx[k]++
-						if idx[k] < len(ops) {
-							break
-						}
-						idx[k] = 0
-						k--
-					}
-					if k < 0 {
+					if r.TimeUp() {
 						break
 					}
 				}
 			}
 		}
-		r.Count("fault_histories", r.Evals-before)
+		r.Count("sequential_histories", r.Evals)
+		// destination failures: the statement does not say what a failing destination does to the held lines,
+		// but "no line is duplicated or altered" and "held lines in their original order" hold for every history: with
+		// one failing destination call, every received line is one that was written, at most once, held ones in order
+		{
+			L2 := 5
+			before := r.Evals
+			for _, pair := range [][2]zerolog.Level{{0, 3}, {3, 1}, {1, 1}} {
+				for failAt := 1; failAt <= 3; failAt++ {
+					idx := make([]int, L2)
+					for {
+						hist := make([]op, L2)
+						for i := range hist {
+							hist[i] = ops[idx[i]]
+						}
+						hidx++
+						if hidx%int64(nshards) == int64(shard) {
+							runFaultHistory(r, pair[0], pair[1], failAt, hist)
+						}
+						k := L2 - 1
+						for k >= 0 {
+							idx[k]++
+							if idx[k] < len(ops) {
+								break
+							}
+							idx[k] = 0
+							k--
+						}
+						if k < 0 {
+							break
+						}
+					}
+				}
+			}
+			r.Count("fault_histories", r.Evals-before)
+		}
+	})
+	if seq.ShardMode() {
+		return
 	}
 
 	// concurrent part
@@ -266,57 +280,78 @@ func main() {
 }
 
 func runHistory(r *seq.Run, cl, tl zerolog.Level, plain bool, hist []op) {
-	var gots [2][]rec
-	var wants [2][]rec
+	// instance 0 runs the history alone and is closed (its buffer goes back to the pool); instances 1 and 2
+	// are then open AT THE SAME TIME and run the same history in alternation (each must have its own buffer)
+	var gots [3][]rec
+	var wants [3][]rec
 	heldAny := false
 	mcrt.Run(mcrt.Config{}, func() {
-		for inst := 0; inst < 2; inst++ {
-			var w *zerolog.TriggerLevelWriter
-			var ld *levelDest
-			var pd *plainDest
-			if plain {
-				pd = &plainDest{}
-				w = &zerolog.TriggerLevelWriter{Writer: pd, ConditionalLevel: cl, TriggerLevel: tl}
-			} else {
-				ld = &levelDest{}
-				w = &zerolog.TriggerLevelWriter{Writer: ld, ConditionalLevel: cl, TriggerLevel: tl}
-			}
-			m := &refTrigger{cond: cl, trig: tl}
-			for i, o := range hist {
-				switch o.kind {
-				case "w":
-					line := lineOf(inst, i)
-					n, err := w.WriteLevel(o.lvl, []byte(line))
-					if n != len(line) || err != nil {
-						m.out = append(m.out, rec{0, true, fmt.Sprintf("<<WriteLevel returned (%d,%v)>>", n, err)})
-					}
-					m.write(o.lvl, line)
-					if len(m.held) > 0 {
-						heldAny = true
-					}
-				case "trigger":
-					w.Trigger()
-					m.trigger()
-				case "close":
-					w.Close()
-					m.close()
-				}
-			}
-			// the instance is closed at the end so that the next one reuses its buffer
-			w.Close()
-			if plain {
-				gots[inst] = pd.got
-			} else {
-				gots[inst] = ld.got
-			}
-			wants[inst] = m.out
+		type instance struct {
+			w  *zerolog.TriggerLevelWriter
+			ld *levelDest
+			pd *plainDest
+			m  *refTrigger
 		}
+		mk := func() *instance {
+			in := &instance{m: &refTrigger{cond: cl, trig: tl}}
+			if plain {
+				in.pd = &plainDest{}
+				in.w = &zerolog.TriggerLevelWriter{Writer: in.pd, ConditionalLevel: cl, TriggerLevel: tl}
+			} else {
+				in.ld = &levelDest{}
+				in.w = &zerolog.TriggerLevelWriter{Writer: in.ld, ConditionalLevel: cl, TriggerLevel: tl}
+			}
+			return in
+		}
+		step := func(in *instance, id, i int, o op) {
+			switch o.kind {
+			case "w":
+				line := lineOf(id, i)
+				n, err := in.w.WriteLevel(o.lvl, []byte(line))
+				if n != len(line) || err != nil {
+					in.m.out = append(in.m.out, rec{0, true, fmt.Sprintf("<<WriteLevel returned (%d,%v)>>", n, err)})
+				}
+				in.m.write(o.lvl, line)
+				if len(in.m.held) > 0 {
+					heldAny = true
+				}
+			case "trigger":
+				in.w.Trigger()
+				in.m.trigger()
+			case "close":
+				in.w.Close()
+				in.m.close()
+			}
+		}
+		collect := func(in *instance, id int) {
+			if plain {
+				gots[id] = in.pd.got
+			} else {
+				gots[id] = in.ld.got
+			}
+			wants[id] = in.m.out
+		}
+		a := mk()
+		for i, o := range hist {
+			step(a, 0, i, o)
+		}
+		a.w.Close()
+		collect(a, 0)
+		b, c := mk(), mk()
+		for i, o := range hist {
+			step(b, 1, i, o)
+			step(c, 2, i, o)
+		}
+		b.w.Close()
+		c.w.Close()
+		collect(b, 1)
+		collect(c, 2)
 	})
-	r.Transitions += int64(2 * len(hist))
+	r.Transitions += int64(3 * len(hist))
 	r.Eval(fmt.Sprint(cl, tl, plain, hist, fmtRecs(gots[0])), heldAny)
-	for inst := 0; inst < 2; inst++ {
+	for inst := 0; inst < 3; inst++ {
 		if !sameRecs(gots[inst], wants[inst], !plain) {
-			r.Violation("", fmt.Sprint("seq/", cl, tl, plain, inst), fmt.Sprintf("ConditionalLevel=%d TriggerLevel=%d plainDest=%v instance %d history %v: destination got %s, model expects %s", cl, tl, plain, inst, hist, fmtRecs(gots[inst]), fmtRecs(wants[inst])),
+			r.Violation("", fmt.Sprint("seq/", cl, tl, plain, inst), fmt.Sprintf("ConditionalLevel=%d TriggerLevel=%d plainDest=%v instance %d (0 alone and closed; 1 and 2 open together afterwards) history %v: destination got %s, model expects %s", cl, tl, plain, inst, hist, fmtRecs(gots[inst]), fmtRecs(wants[inst])),
 				map[string]interface{}{"cond": cl, "trig": tl, "plain": plain, "history": fmt.Sprint(hist)})
 		}
 	}
